@@ -365,6 +365,9 @@ func (l *Lexer) readString() (string, int, int, int) {
 			if l.skipNewlineWhitespace() {
 				l.skipWhitespace()
 				sb.WriteRune(' ')
+				if l.ch == '"' || l.ch == 0 {
+					break
+				}
 			}
 			sb.WriteRune(l.ch)
 			l.readChar()
